@@ -1,17 +1,21 @@
-"""Finite-domain symbolic evaluation of one function body (no tornado code is run).
+"""Finite-domain abstract interpretation (partial evaluation) of one function body over the AST.
 
-A small AST evaluator over *abstract stub values*: constants, ``Obj`` attribute
-bags, ``HeaderMap`` (case-normalising multimap stub) and ``UNK`` (unknown).  It
-executes the statements of a single function for one valuation of its inputs,
-forking on branch conditions whose value is unknown, and returns every path
-outcome (return / raise / fall-through) with the final abstract state and the
-list of calls met on the path.  Rules enumerate a finite input domain
-exhaustively (DESIGN.md §2.1 E2: "evaluates the guard expression for every
-value of the domain by constant folding the AST, which is exhaustive").
+Static analysis only: no tornado code is imported or run, no solver is used.  A small
+AST interpreter over *abstract stub values* — constants, ``Obj`` attribute bags,
+``HeaderMap`` (case-normalising multimap stub) and ``UNK`` (the unknown/top value) —
+partially evaluates the statements of a single function for one valuation of its
+inputs, forks on branch conditions whose abstract value is unknown (both branches
+are explored), and returns every path outcome (return / raise / fall-through) with
+the final abstract state and the list of calls met on the path.  Rules enumerate a
+finite input domain exhaustively (DESIGN.md §2.1 E2: "evaluates the guard expression
+for every value of the domain by constant folding the AST, which is exhaustive").
 
-Only a whitelist of pure builtin/str/dict operations is interpreted; every other
-call evaluates to ``UNK`` (after its arguments were evaluated) and is recorded
-as an event.  Statement kinds that are not modelled raise AnalysisError.
+Only a whitelist of pure builtin/str/dict operations is folded; every other call
+evaluates to ``UNK`` (after its arguments were evaluated) and is recorded as an
+event; methods of the same object are either interpreted inline (statement level)
+or havocked by their statically computed mod-set; a header map handed to code that is
+not interpreted becomes unknown.  Statement kinds that are not modelled raise
+AnalysisError (fail closed).
 """
 from __future__ import annotations
 
@@ -234,7 +238,7 @@ class Evaluator:
             return self._comp(e, st)
         if isinstance(e, (ast.JoinedStr, ast.Lambda, ast.DictComp, ast.Dict, ast.Starred, ast.Yield, ast.YieldFrom, ast.FormattedValue)):
             return UNK
-        raise AnalysisError("symbolic evaluator: expression %s not modelled" % type(e).__name__)
+        raise AnalysisError("abstract interpreter: expression %s not modelled" % type(e).__name__)
 
     def _comp(self, e, st: State):
         """list of element values of a single-generator comprehension over a known small iterable; else UNK"""
@@ -395,7 +399,7 @@ class Evaluator:
             elif status[0] == "raise":
                 outs.append(Outcome("raise", status[1], s, status[2]))
             else:
-                raise AnalysisError("symbolic evaluator: stray %s" % (status,))
+                raise AnalysisError("abstract interpreter: stray %s" % (status,))
         return outs
 
     def block(self, stmts, st: State):
@@ -421,7 +425,7 @@ class Evaluator:
         if v is UNK:
             self.paths += 1
             if self.paths > self.max_paths:
-                raise AnalysisError("symbolic evaluator: path explosion")
+                raise AnalysisError("abstract interpreter: path explosion")
             return [(st, True), (st.fork(), False)]
         if isinstance(v, (Obj, HeaderMap)):
             return [(st, True)]
@@ -515,7 +519,7 @@ class Evaluator:
                 out.append((y, status))
                 continue
             else:
-                raise AnalysisError("symbolic evaluator: stray %s in inlined %s" % (status, d))
+                raise AnalysisError("abstract interpreter: stray %s in inlined %s" % (status, d))
             if isinstance(s, ast.Assign):
                 for t in s.targets:
                     self._assign(t, v, y)
@@ -656,7 +660,7 @@ class Evaluator:
             return out
         if isinstance(s, ast.Try):
             return self._try(s, st)
-        raise AnalysisError("symbolic evaluator: statement %s not modelled (line %s)" % (type(s).__name__, getattr(s, "lineno", "?")))
+        raise AnalysisError("abstract interpreter: statement %s not modelled (line %s)" % (type(s).__name__, getattr(s, "lineno", "?")))
 
     def _try(self, s: ast.Try, st: State):
         res = []
